@@ -747,6 +747,22 @@ def stream_generated(ctx: Ctx) -> tuple[Stream, list[dict[str, Any]]]:
 # search: the law on the real code
 
 
+_DECLARED: dict[type, list[str]] = {}
+
+
+def declared_props(cls: type) -> list[str]:
+	"""Expandable properties as declared by the decorators: read from the embed metadata of the class and its bases
+	(base classes first), never through Node.prop_keys() and its class-attribute cache."""
+	if cls not in _DECLARED:
+		from rogw.tranp.syntax.node.embed import EmbedKeys, Meta
+		from rogw.tranp.syntax.node.node import Node
+		keys: list[str] = []
+		for base in reversed([c for c in cls.__mro__ if issubclass(c, Node) and c is not Node]):
+			keys.extend(Meta.dig_for_method(Node, base, EmbedKeys.Expandable, value_type=bool).keys())
+		_DECLARED[cls] = keys
+	return _DECLARED[cls]
+
+
 def spec_walk(root: Any) -> tuple[list[Any], list[dict[str, Any]]]:
 	"""Independent statement of the property: visiting order and, per visited position, the positions whose results the
 	handler must receive for each declared property (single value vs list). No Procedure, no procedural()."""
@@ -756,7 +772,7 @@ def spec_walk(root: Any) -> tuple[list[Any], list[dict[str, Any]]]:
 	def visit(n: Any) -> int:
 		ev: dict[str, Any] = {}
 		if n.can_expand:
-			for k in dict.fromkeys(n.prop_keys()):
+			for k in dict.fromkeys(declared_props(type(n))):
 				v = getattr(n, k)
 				ev[k] = [visit(c) for c in v] if isinstance(v, list) else visit(v)
 		order.append(n)
@@ -920,6 +936,8 @@ def class_table_findings() -> tuple[list[tuple[str, str]], dict[str, int]]:
 			bad.append((f'wf:prop-keys-raises:{c.__name__}', f'{c.__name__}.prop_keys() raised {canon_exc(e)}'))
 			continue
 		stats['with_props'] += bool(keys)
+		if list(keys) != declared_props(c):
+			bad.append((f'prop-keys-history:{c.__name__}', f'{c.__name__}.prop_keys() = {list(keys)} but the class declares {declared_props(c)} (in-process, after the streams)'))
 		if len(set(keys)) != len(keys):
 			bad.append((f'wf:duplicate-key:{c.__name__}', f'{c.__name__}.prop_keys() repeats a key: {keys}'))
 		if issubclass(c, ITerminal) and keys:
@@ -1006,7 +1024,7 @@ def search_identity(ctx: Ctx, real_descs: list[dict[str, Any]], gen_descs: list[
 	hist['node classes checked'] = stats['classes']
 	for key, what in table_bad:
 		hist[key] += 1
-		if 'raises' in key or 'annotation-missing' in key:
+		if 'raises' in key or 'annotation-missing' in key or key.startswith('prop-keys-history'):
 			# procedure.py:209 / node.py:193 would raise for every node of that class: the run cannot succeed
 			res.findings.append(Finding(key=key, what=what, replay={'class_table': what}))
 		else:
@@ -1220,6 +1238,159 @@ def search_semantic(ctx: Ctx) -> SearchResult:
 	return res
 
 
+# --- class-level history: the prop_keys() cache is process-wide class state, so this part runs in fresh processes
+
+
+def definition_classes() -> list[type]:
+	import rogw.tranp.syntax.node.definition as defs
+	from rogw.tranp.syntax.node.node import Node
+
+	def subs(c: type) -> list[type]:
+		out = []
+		for x in c.__subclasses__():
+			out.append(x)
+			out.extend(subs(x))
+		return out
+	exported = [v for v in vars(defs).values() if isinstance(v, type) and issubclass(v, Node)]
+	rest = sorted({c for c in subs(Node) if c.__module__.startswith('rogw.')} - set(exported), key=lambda c: c.__name__)
+	return [*dict.fromkeys([*exported, *rest]), Node]
+
+
+def query_order(mode: str, seed: int) -> list[type]:
+	from rogw.tranp.syntax.node.node import Node
+	classes = definition_classes()
+	if mode == 'exports':
+		return classes
+	if mode == 'bases-first':
+		return sorted(classes, key=lambda c: (len(c.__mro__), c.__name__))
+	if mode == 'leaves-first':
+		return sorted(classes, key=lambda c: (-len(c.__mro__), c.__name__))
+	if mode == 'reverse-mro':
+		return [b for c in sorted(classes, key=lambda c: c.__name__) for b in reversed(c.__mro__) if isinstance(b, type) and issubclass(b, Node)]
+	if mode == 'random':
+		r = random.Random(f'C09:order:{seed}')
+		out = list(classes)
+		r.shuffle(out)
+		return out[:r.randint(1, len(out))] if seed % 2 else out
+	if mode == 'none':
+		return []
+	raise AssertionError(mode)
+
+
+def worker_main() -> None:
+	"""Fresh process: query prop_keys() on the node classes in a given order, then check every class against its declared
+	properties and run the identity-valued oracle on the given sources. Reads a JSON job on stdin, writes JSON on stdout."""
+	import sys
+	import tempfile
+	job = json.load(sys.stdin)
+	findings: list[dict[str, Any]] = []
+	hist: Counter[str] = Counter()
+	order = query_order(job['mode'], job['seed'])
+	queried: list[str] = []
+	for c in order:
+		try:
+			c.prop_keys()
+		except Exception as e:  # noqa: BLE001
+			findings.append({'key': f'prop-keys-raises:{c.__name__}', 'what': f'{c.__name__}.prop_keys() raised {canon_exc(e)}', 'replay': {'queried_before': queried[-20:]}})
+		queried.append(c.__name__)
+	hist[f'classes queried first ({job["mode"]})'] = len(order)
+	pos = {n: i for i, n in reversed(list(enumerate(queried)))}
+	for c in definition_classes():
+		try:
+			got = list(c.prop_keys())
+		except Exception as e:  # noqa: BLE001
+			findings.append({'key': f'prop-keys-raises:{c.__name__}', 'what': f'{c.__name__}.prop_keys() raised {canon_exc(e)}', 'replay': {}})
+			continue
+		want = declared_props(c)
+		hist['classes compared with their declared properties'] += 1
+		if got != want:
+			me = pos.get(c.__name__, len(queried))
+			earlier = [b.__name__ for b in c.__mro__[1:] if b.__name__ in pos and pos[b.__name__] < me]
+			findings.append({'key': f'prop-keys-history:{c.__name__}',
+				'what': f'{c.__name__}.prop_keys() = {got} but the class declares {want} (expandable metadata over the MRO) after prop_keys() was queried on {earlier or "other classes"} first',
+				'replay': {'query_order': queried[:me + 1], 'class': c.__name__, 'prop_keys': got, 'declared': want, 'bases_queried_earlier': earlier}})
+	tmp = tempfile.mkdtemp(prefix='tranp-verif-c09w-')
+	try:
+		app = common.MemApp(tmp)
+		for name, src in job['sources']:
+			ep = load_entrypoint(app, src)
+			if ep is None:
+				hist['outside grammar'] += 1
+				continue
+			run = IdentityRun()
+			roots = [ep]
+			try:
+				walk, _ = spec_walk(ep)
+				inner = [n for n in walk if n.can_expand and declared_props(type(n)) and n is not ep]
+				roots += random.Random(f'{name}:{job["seed"]}').sample(inner, min(len(inner), 3))
+			except Exception:  # noqa: BLE001 - reported by check()
+				pass
+			for root in roots:
+				hist['trees'] += 1
+				bad = run.check(root)
+				if bad and bad[0].startswith('getter-raises') and not job['must_hold'].get(name, False):
+					hist['property getter raised (program outside the supported subset)'] += 1
+					break
+				if bad:
+					findings.append({'key': bad[0], 'what': f'{bad[1]} [{name}; prop_keys() queried first in order {job["mode"]}]',
+						'replay': {'source_name': name, 'source': src, 'root': root.full_path, 'mode': 'prop-keys-history', 'order_mode': job['mode'], 'order_seed': job['seed'],
+							'query_order_head': queried[:40]}})
+					break
+	finally:
+		import shutil
+		shutil.rmtree(tmp, ignore_errors=True)
+	json.dump({'findings': findings, 'hist': dict(hist)}, sys.stdout)
+
+
+def run_worker(job: dict[str, Any]) -> dict[str, Any]:
+	import sys
+	env = dict(os.environ)
+	env['PYTHONPATH'] = os.pathsep.join([os.path.join(common.VERIF, 'compat'), common.REPO, common.VERIF])
+	env['PYTHONDONTWRITEBYTECODE'] = '1'
+	rc, out, err = common.run_cmd([sys.executable, '-c', 'from harness import c09; c09.worker_main()'], common.REPO, 600, input_text=json.dumps(job), env=env)
+	if rc != 0:
+		raise common.InfraError(f'C09 worker failed (mode {job["mode"]}): {err[-1500:]}')
+	return json.loads(out)
+
+
+def search_prop_keys_history(ctx: Ctx) -> SearchResult:
+	"""History over pure class-level queries: whatever order prop_keys() was asked in before (abstract bases first, export
+	order, random prefixes), every class must report its declared properties and the identity-valued runs must hold."""
+	rng = ctx.sub_rng('prop-keys-history')
+	res = SearchResult('fresh processes: prop_keys() queried on all node classes in several orders, then prop_keys vs declared metadata for every class + identity-valued runs vs property walk')
+	hist: Counter[str] = Counter()
+	modes: list[tuple[str, int]] = [('bases-first', 0), ('exports', 0), ('random', 2 * rng.randrange(1000)), ('random', 2 * rng.randrange(1000) + 1)]
+	if ctx.thorough:
+		modes += [('reverse-mro', 0), ('leaves-first', 0), ('none', 0)] + [('random', rng.randrange(100000)) for _ in range(8)]
+	gen = ProgGen(rng)
+	curated = [f for f in REAL_QUICK if is_curated(os.path.join(common.REPO, f)) and os.path.exists(os.path.join(common.REPO, f))]
+	for mode, seed in modes:
+		sources: list[list[str]] = []
+		must_hold: dict[str, bool] = {}
+		for f in rng.sample(curated, min(len(curated), ctx.scale(1, 3))):
+			with open(os.path.join(common.REPO, f), encoding='utf-8') as fh:
+				sources.append([f, fh.read()])
+			must_hold[f] = True
+		sources.append(['generic', generic_program(rng)])
+		must_hold['generic'] = True
+		for i in range(ctx.scale(6, 30)):
+			sources.append([f'generated#{i}', gen.program()])
+		out = run_worker({'mode': mode, 'seed': seed, 'sources': sources, 'must_hold': must_hold})
+		res.cases += 1 + out['hist'].get('trees', 0)
+		for k, v in out['hist'].items():
+			hist[k if not k.startswith('classes queried') else f'{k}'] += v
+		hist[f'order {mode}: ' + ('ok' if not out['findings'] else f"{len(out['findings'])} finding(s)")] += 1
+		for f in out['findings']:
+			f['replay'].update({'order_mode': mode, 'order_seed': seed})
+			res.findings.append(Finding(key=f['key'], what=f['what'], replay=f['replay']))
+		if len(res.samples) < 2:
+			res.samples.append({'order': mode, 'seed': seed, 'sources': [n for n, _ in sources][:4], 'hist': out['hist']})
+	res.distinct = len(modes)
+	res.histogram = dict(hist)
+	res.note = 'the prop_keys() cache is a class attribute looked up with hasattr (follows the MRO): a base queried before a subclass must not leak its list'
+	return res
+
+
 def search_nested_catch(ctx: Ctx) -> SearchResult:
 	"""The hazard of failed_nested_counterexample needs a caller that catches the exception of a nested exec on the same
 	Procedure. Static scan of tranp for `try` bodies that (lexically) start such a run; replay of the witness on the real code."""
@@ -1284,7 +1455,9 @@ def run(ctx: Ctx) -> int:
 			s1 = search_identity(ctx, real_descs, gen_descs)
 		with ctx.timed('search_semantic'):
 			s2 = search_semantic(ctx)
-		searches = [s1, s2, search_nested_catch(ctx)]
+		with ctx.timed('search_prop_keys_history'):
+			s3 = search_prop_keys_history(ctx)
+		searches = [s1, s2, s3, search_nested_catch(ctx)]
 	return common.finish(ctx, proof, streams, searches,
 		statements=STATEMENTS,
 		partial={
